@@ -52,6 +52,13 @@ pub fn pipeline(text: &str) -> Result<&'static str, (String, String, String)> {
 /// `vcheck worker`: protocol: "<len>\n<bytes>" per case; answer "R <cpu_s> <outcome...>\n"
 pub fn worker_main() -> i32 {
     // generous stack so that the harness itself does not limit nesting below the property's bound
+    // an input of at most 64 KiB has no business needing gigabytes: with 4 GiB of address space an
+    // allocation whose size follows from a number in the source fails, the process aborts, and the
+    // death is attributed to the case in flight (instead of sixteen workers eating the machine)
+    unsafe {
+        let lim = libc::rlimit { rlim_cur: 4u64 << 30, rlim_max: 4u64 << 30 };
+        libc::setrlimit(libc::RLIMIT_AS, &lim);
+    }
     let child = std::thread::Builder::new().stack_size(64 << 20).spawn(|| {
         let stdin = std::io::stdin();
         let mut inp = BufReader::new(stdin.lock());
@@ -396,6 +403,17 @@ fn family_extreme(t: &mut Tape) -> String {
                 2 => format!("TYPE\nt : STRUCT\nm : {}{}{}{}{};\nEND_STRUCT;\nEND_TYPE\n", kw, o, b, c, init),
                 3 => format!("PROGRAM p\nVAR\na : ARRAY[{}..{}] OF INT := [{}({}), 1];\nEND_VAR\nEND_PROGRAM\n", t.below(3), b2, b, t.below(9)),
                 _ => format!("TYPE\ns : {}{}{}{}{};\nEND_TYPE\nPROGRAM p\nVAR CONSTANT\nw : s;\nv : s{};\nEND_VAR\nEND_PROGRAM\n", kw, o, b, c, init, init),
+            }
+        }
+        9 if t.flag() => {
+            // numbers someone may count through: CASE selectors (values, wide subranges), array bounds
+            // of a variable, a FOR range, a repetition count
+            let lo = *t.pick(&["0", "1", "61", "-5"]);
+            match t.below(4) {
+                0 => format!("PROGRAM p\nVAR\ng : DINT;\nEND_VAR\nCASE g OF\n{}..{}: g := 3;\n{}: g := 4;\nEND_CASE;\nEND_PROGRAM\n", lo, b, b2),
+                1 => format!("PROGRAM p\nVAR\ng : DINT;\na : ARRAY[{}..{}] OF BOOL;\nEND_VAR\ng := 1;\nEND_PROGRAM\n", lo, b),
+                2 => format!("PROGRAM p\nVAR\ng : DINT;\nEND_VAR\nFOR g := {} TO {} BY {} DO\ng := g;\nEND_FOR;\nEND_PROGRAM\n", lo, b, b2),
+                _ => format!("FUNCTION_BLOCK f\nVAR\ng : DINT;\nEND_VAR\nCASE g OF\n{}..{}, {}..{}: g := 1;\nELSE\ng := 2;\nEND_CASE;\nEND_FUNCTION_BLOCK\n", lo, b, b, b2),
             }
         }
         9 => format!("FUNCTION_BLOCK f\nINITIAL_STEP i:\nEND_STEP\nTRANSITION t1 (PRIORITY := {}) FROM i TO i\n:= TRUE;\nEND_TRANSITION\nEND_FUNCTION_BLOCK\n", b),
